@@ -1094,7 +1094,9 @@ class Grid(object):
         if align_corners:
             spacing = (self.extent() - self.spacing()) / (size - 1)
             grid._spacing = torch.where(self._size.gt(0), spacing, self._spacing)
-            assert torch.allclose(grid.origin(), self.origin())
+            # origin = center - offset is subject to cancellation: tolerance relative to the grid's magnitude
+            atol = 1e-5 * (self._center.abs().max() + self.extent().max()).item()
+            assert torch.allclose(grid.origin(), self.origin(), rtol=1e-5, atol=atol)
         else:
             spacing = self.extent() / size
             grid._spacing = torch.where(self._size.gt(0), spacing, self._spacing)
